@@ -176,7 +176,16 @@ def tables_rule(chk, prog):
                     for k in keys:
                         if k[0] == "lit":
                             ws.add(k[1])
+    if not ws and "humphrey_json::parser::is_whitespace" in prog.bodies:
+        # not a `match` / `matches!`: the predicate's true-set evaluated on the MIR (hv.charauto)
+        from .. import charauto
+        try:
+            iv = charauto.char_predicate(prog, "humphrey_json::parser::is_whitespace")
+            ws = set(chr(c) for lo, hi in iv for c in range(lo, min(hi, lo + 64) + 1))
+        except charauto.Undecided:
+            pass
     chk.ob("R1.whitespace", "humphrey_json::parser::is_whitespace", "whitespace == {SP, HT, LF, CR}", ws == RFC_WS, f"whitespace set {sorted(ws)}")
+    token_extent(chk, prog)
     hl = prog.hir.get(P + "parse_literal")
     lit = {}
     if hl:
@@ -218,6 +227,39 @@ def tables_rule(chk, prog):
         lit.get("true") == ("call", "humphrey_json::value::Value::Bool", [("lit", True)]) and \
         lit.get("false") == ("call", "humphrey_json::value::Value::Bool", [("lit", False)]) and set(lit) == {"null", "true", "false"}
     chk.ob("R1.literals", P + "parse_literal", "literal table == {null, true, false}", ok, f"{lit}")
+
+
+def token_extent(chk, prog):
+    """R3.token_extent: a literal / number token is the maximal run of characters accepted by the predicate the literal loop uses.  Every
+    character of `null`, `true`, `false` and of the number grammar must be a token character (else a valid token is cut in two and rejected),
+    and the characters that may legally follow a value (whitespace `,` `]` `}`) must not be (else `[1,2]` is one token)."""
+    from .. import charauto
+    fam = [P + "parse_literal"] + [c.path for c in prog.all_closures_of(P + "parse_literal")] if hasattr(prog, "all_closures_of") else [P + "parse_literal"]
+    preds = set()
+    for p in fam:
+        b = prog.bodies.get(p)
+        if not b:
+            continue
+        for blk, t in b.calls():
+            r = t.get("resolved") or ""
+            cb = prog.bodies.get(r)
+            if cb is not None and r.startswith("humphrey_json::") and cb.kind in ("fn",) and cb.argc == 1 and cb.local_ty(0) == "bool" and "char" in (cb.local_ty(1) or ""):
+                preds.add(r)
+    chk.floor("token-character predicates used by parse_literal", len(preds), 1)
+    need = "-+.0123456789eEnultrfas"
+    stop = " \t\n\r,]}"
+    for r in sorted(preds):
+        try:
+            iv = charauto.char_predicate(prog, r)
+        except charauto.Undecided as e:
+            chk.extra.setdefault("token_extent_not_decided", []).append(f"{r}: {e}")
+            continue
+        missing = [c for c in need if not charauto.in_intervals(iv, ord(c))]
+        extra = [c for c in stop if charauto.in_intervals(iv, ord(c))]
+        chk.ob("R3.token_extent", r, "every character of a literal or number is a token character", not missing,
+               f"{missing} end a token: a valid literal / number containing them is split and rejected")
+        chk.ob("R3.token_extent", r, "whitespace, `,`, `]` and `}` end a token", not extra,
+               f"{[repr(c) for c in extra]} are token characters: a value followed by them is read as one invalid token")
 
 
 def char_edges(prog, b, ch):
